@@ -191,7 +191,24 @@ def run(repo: Repo, rep: Report, tier: str) -> None:
             FL = Locals(hf.node)
             src = FL.inline(t.comparators[0], stop=tuple(FL.params))
             from_ir = sorted({x.attr for x in ast.walk(src) if isinstance(x, ast.Attribute) and x.attr in IR_ATTRS})
-            if not from_ir:
+            # the sniff is the whole decision: a conjunct / disjunct over other state (a flag set while copying @overload stubs, a counter)
+            # makes Protocol and mock - which evaluate the same text - disagree for the operations where that state differs
+            extra: List[str] = []
+            par = parent(t)
+            while isinstance(par, ast.UnaryOp):
+                par = parent(par)
+            if isinstance(par, ast.BoolOp):
+                evidence = {x.id for x in ast.walk(t.comparators[0]) if isinstance(x, ast.Name)} | {x.id for x in ast.walk(src) if isinstance(x, ast.Name)}
+                for other in par.values:
+                    if other is t or any(y is t for y in ast.walk(other)):
+                        continue
+                    oi = FL.inline(other, stop=tuple(FL.params))
+                    extra += sorted({x.id for x in ast.walk(oi) if isinstance(x, ast.Name)} - evidence - {"self"})
+            if extra:
+                rep.violation("R13.5", sub, f"{fn.fq}|nature|extra-condition|{extra[0]}",
+                              f"`{norm(par)[:80]}`: besides the rendered signature the decision reads {extra}; the Protocol stub and the mock method of the same operation "
+                              "can then differ in nature (`async def` coroutine stub for an async-generator method: neither client nor mock satisfies the Protocol)", fn.loc(t))
+            elif not from_ir:
                 rep.ok("R13.5", sub, f"`{norm(t)[:60]}`: decided from the rendered signature's return annotation (the same text the client method has)", fn.loc(t))
             else:
                 rep.violation("R13.5", sub, f"{fn.fq}|nature|from-ir|{from_ir}",
